@@ -84,6 +84,7 @@ type Exec struct {
 	sched     *Sched
 	unwind    int
 	allowPanic bool
+	allowDeadlock bool
 	errSeq    int
 	objs      map[string]Value // per-path named singletons (opaque objects)
 	clock     *Term
